@@ -199,6 +199,13 @@ class Ctx(object):
         v = z3.Int(name)
         self.inputs[name] = v
         self.assume(z3.And(v >= 0, v < n))
+        if name in PINS:
+            # this job explores only the slice of the space in which the choice has the pinned value (the plan lists
+            # one job per value, so that one enumeration is spread over several worker processes)
+            if PINS[name] >= n:
+                raise Abort("pinned choice %s=%d does not exist on this path" % (name, PINS[name]))
+            self.assume(v == PINS[name])
+            return PINS[name]
         for i in range(n - 1):
             if self.decide(v == i):
                 return i
@@ -358,6 +365,9 @@ def wrap_u64(t):
     """value of an unsigned 64-bit result whose mathematical value is t (only the wrap below zero is modelled; inputs
     are bounded so that nothing reaches 2^64 from below)"""
     return z3.If(t < 0, t + z3.RealVal(U64), t)
+
+
+PINS = {}
 
 
 class SymBool(object):
